@@ -11,7 +11,7 @@ def run(tier):
     c.judge(bads)
     c.exhaustive = True
     c.rule = ("the whole 10 x 12 matrix (expected type E x behaviour of fn: returns, throws int, throws each of ten types "
-              "incl. expectation_failed itself and a type outside std::exception), and the six relation macros plus "
+              "incl. expectation_failed itself and a type outside std::exception; seven what() texts incl. % sequences), and the six relation macros plus "
               "expect/expect_msg over all operand pairs from boundary sets of int64, uint64, int, string, double and "
               "float (incl. NaN, +-inf, -0.0, denormal); everything in four calling contexts (plain, inside a catch handler, from a destructor during stack unwinding, from a destructor on normal exit); distinct = (helper, outcome) classes")
     c.assumptions = ["operands are identified by their rank in the (sorted) boundary set"]
